@@ -11,6 +11,7 @@ import MdIt.Drv.Inline
 import MdIt.Drv.Block
 import MdIt.Drv.Refs
 import MdIt.Drv.Mini
+import MdIt.Drv.Delims
 open MdIt
 
 def handle (line : String) : String :=
@@ -32,6 +33,7 @@ def handle (line : String) : String :=
   | "lblock" :: rest => Drv.lLine rest
   | "unescape" :: rest => Drv.unescapeLine rest
   | "inline" :: rest => Drv.inlineLine rest
+  | "delims" :: rest => Drv.delimsLine rest
   | "textjoin" :: rest => Drv.textJoinLine rest
   | "smart" :: rest => Drv.smartLine rest
   | "encode" :: rest => Drv.urlLine "encode" rest
